@@ -157,6 +157,24 @@ def kinded_reads(fn):
     return out
 
 
+def scope_nodes(mod, fn):
+    """the syntax nodes of fn and of the private module-level helpers it hands its work to (transitively): a reader that
+    only opens the file and delegates the walk to `_trees_of_xml(root, ..)` is judged on both"""
+    seen, todo = [fn], [fn]
+    while todo:
+        f = todo.pop()
+        for c in ast.walk(f):
+            if isinstance(c, ast.Call) and isinstance(c.func, ast.Name) and c.func.id.startswith('_'):
+                g = mod._find(mod.tree.body, c.func.id, (ast.FunctionDef,)) if hasattr(mod, '_find') else None
+                if isinstance(g, ast.FunctionDef) and g not in seen:
+                    seen.append(g)
+                    todo.append(g)
+    out = []
+    for f in seen:
+        out.extend(ast.walk(f))
+    return out
+
+
 def r_candc(repo, rep, R='R15.1'):
     pm = repo.module(PX)
     pt = pm.get('_process_tree')
@@ -166,9 +184,10 @@ def r_candc(repo, rep, R='R15.1'):
     tags = set(els.values())
     rm = repo.module(RD)
     rx = rm.get('read_xml')
-    rtags = {n.comparators[0].value for n in ast.walk(rx) if isinstance(n, ast.Compare) and src(n.left).endswith('.tag')
+    rx_nodes = scope_nodes(rm, rx)
+    rtags = {n.comparators[0].value for n in rx_nodes if isinstance(n, ast.Compare) and src(n.left).endswith('.tag')
              and isinstance(n.comparators[0], ast.Constant)}
-    xp = {n.args[0].value for n in ast.walk(rx) if isinstance(n, ast.Call) and isinstance(n.func, ast.Attribute) and n.func.attr == 'xpath'
+    xp = {n.args[0].value for n in rx_nodes if isinstance(n, ast.Call) and isinstance(n.func, ast.Attribute) and n.func.attr == 'xpath'
           and n.args and isinstance(n.args[0], ast.Constant)}
     rep.check(tags == {'ccg', 'rule', 'lf'} and rtags == {'rule', 'lf'} and 'ccg' in xp, R, w, 'candc:tags',
               'writer tags %s = tags the reader dispatches on %s + %s' % (sorted(tags), sorted(rtags), sorted(xp)),
@@ -226,7 +245,7 @@ def r_candc(repo, rep, R='R15.1'):
     rep.check(ok, R, '%s:%s xml_of' % (PX, xo.lineno), 'candc:ccg-attrs', 'each ccg element carries its sentence number and n-best rank', 'ccg attributes are %s' % {k: sorted(v) for k, v in s2.items()})
     # the derivation root is the single child of a <ccg> element: the loop variable over the selected ccg elements, at [0]
     root_ok = False
-    for l in [x for x in ast.walk(rx) if isinstance(x, ast.For) and isinstance(x.target, ast.Name)]:
+    for l in [x for x in rx_nodes if isinstance(x, ast.For) and isinstance(x.target, ast.Name)]:
         v_ = l.target.id
         if any(isinstance(n, ast.Subscript) and isinstance(n.value, ast.Name) and n.value.id == v_ and isinstance(n.slice, ast.Constant) and n.slice.value == 0
                for n in ast.walk(l)):
